@@ -335,6 +335,12 @@ func (sg *sqlGen) ensureComposite() string {
 		}
 		d.Fields = append(d.Fields, &Field{Name: string(rune('A' + i)), Type: ft})
 	}
+	if rapid.IntRange(0, 3).Draw(t, "compUnexported") == 0 {
+		// an unexported integer field is an attribute of the composite type like the others
+		pos := rapid.IntRange(0, len(d.Fields)).Draw(t, "compUnexportedPos")
+		d.Fields = append(d.Fields[:pos], append([]*Field{{Name: "hidden", Type: Basic("int")}}, d.Fields[pos:]...)...)
+		sg.o.class("sql:composite_with_unexported_field")
+	}
 	sg.other.Decls = append(sg.other.Decls, d)
 	return name
 }
@@ -728,6 +734,15 @@ func %[1]sArrayToPQ(ids []%[1]s) pq.Int64Array {
 		if strings.HasPrefix(kind, "json") {
 			sg.jsonCols = append(sg.jsonCols, jsonCol{Name: f.Name, Type: f.Type, owner: idx})
 		}
+	}
+	// an unexported field that is not a guard: not a column at all, wherever it stands (also before the id)
+	if rapid.IntRange(0, 4).Draw(t, "unexportedPlain") == 0 {
+		uf := &Field{Name: "cache", Type: Basic(sg.pick("unexportedPlainType", []string{"string", "int", "bool"}))}
+		defer func() {
+			pos := rapid.IntRange(0, len(d.Fields)).Draw(t, "unexportedPlainPos")
+			d.Fields = append(d.Fields[:pos], append([]*Field{uf}, d.Fields[pos:]...)...)
+		}()
+		o.class("sql:unexported_non_column_field")
 	}
 	// guard
 	if rapid.IntRange(0, 4).Draw(t, "guard") == 0 {
